@@ -223,6 +223,30 @@ def _h2_h3(run, tu):
                        None if ok else 'a path through the store skips PyDict_Clear')
 
 
+def _h5(run, tu):
+    """the explicit close entry points leave the library object closed on *every* path to a successful return:
+    the handle field is NULL (stored, or already tested NULL) -- that field is all the access guards look at"""
+    from ..cast.cfg import cfg_of
+    for fname, field in (('dl_close_lib', 'dlobj->dl_handle'), ('ffi_dlclose', 'lib->l_libhandle')):
+        g = cfg_of(tu, fname)
+        fn = tu.func(fname)
+        stores = [n.id for n in g.nodes if n.ast is not None and any(cx.lhs_text(l) == field and cx.is_null(r) for l, r, op, _x in cx.assignments(n.ast))]
+        # aliases of the field tested for NULL: `libhandle = lib->l_libhandle; if (libhandle != NULL)`
+        names = {field}
+        for l, r, op, _x in cx.assignments(fn):
+            if cx.render(r) == field and op in ('=', 'init'):
+                names.add(cx.lhs_text(l))
+        already = g.edges_of(lambda cn, l: any((cx.render(cn.ast).replace(' ', ''), l) in ((n_ + '!=0', 'F'), (n_ + '==0', 'T'), (n_, 'F'), ('!' + n_, 'T')) for n_ in {x.replace(' ', '') for x in names}))
+        rets = [n for n in g.nodes if n.kind == 'return' and not cx.is_null(cx.kids(n.ast)[0]) and rules.return_value(n) not in ('0', 'NULL')]
+        run.need(bool(rets), '%s: no successful return found' % fname)
+        ok = True
+        for r in rets:
+            if r.id in g.reach([g.entry.id], avoid=set(stores), avoid_edges=already):
+                ok = False
+        run.ob('H5/explicit-close-always-leaves-the-handle-null', fname, '%s = NULL (or already NULL) before every successful return' % field, ok, tu.where(fn),
+               'a path returns success with the handle still set: later reads, writes and symbol fetches on the "closed" library keep working')
+
+
 def _h4(run):
     m = cffi_mod('api')
     close = m.find('_make_ffi_library.FFILibrary.__cffi_close__')
@@ -279,6 +303,8 @@ def check(run):
     run.need(n >= 4, 'expected at least 4 dlsym call sites in the TU, found %d' % n)
     _h2_h3(run, tu)
     _h4(run)
+    _h5(run, tu)
+    run.min_instances('H5', 2)
     run.min_instances('H1/guard-before-dlsym', 4)
     run.min_instances('H2/handle-nulled-after-close', 3)
     run.min_instances('H2/close-is-null-guarded', 3)
